@@ -175,42 +175,127 @@ def oracle_case(case, thorough=False):
     return bad, obs
 
 
+def _filter_apply(kind, D, F, adjoint, gnd):
+    """the point-wise product of FourierFilter in the Fourier domain, written independently: D has the tensor axes of the
+    transfer function first, F those of the field; `gnd` grid axes follow."""
+    if kind == 'scalar':
+        return F * (np.conj(D) if adjoint else D)
+    if kind == 'vector':
+        # numpy broadcasting of f * tf: the vector index of the transfer function is the LAST tensor axis of the field
+        return F * (np.conj(D) if adjoint else D)
+    DD = np.conj(np.swapaxes(D, 0, 1)) if adjoint else D
+    if F.ndim - gnd == 1:
+        return np.einsum('ab...,b...->a...', DD, F)
+    return np.einsum('ab...,bc...->ac...', DD, F)       # a matrix-valued field: the matrix acts from the left, column by column
+
+
+def _filter_reference(kind, D, X, adjoint, Ns, Ms):
+    """crop(ifftn(D (.) fftn(pad X))) with the cut-out start M//2 - N//2 per axis (numpy axis order)"""
+    gnd = len(Ns)
+    ts = X.shape[:X.ndim - gnd]
+    sl = tuple(slice(None) for _ in ts) + tuple(slice(M // 2 - N // 2, M // 2 - N // 2 + N) for N, M in zip(Ns, Ms))
+    P = np.zeros(ts + tuple(Ms), dtype='complex128')
+    P[sl] = X
+    axes = tuple(range(-gnd, 0))
+    G = _filter_apply(kind, D, np.fft.fftn(P, axes=axes), adjoint, gnd)
+    R = np.fft.ifftn(G, axes=axes)
+    sl2 = tuple(slice(None) for _ in R.shape[:R.ndim - gnd]) + sl[len(ts):]
+    return R[sl2]
+
+
 def filter_oracle(case, in_grid, x, obs):
+    """FourierFilter: every combination (tensor order of the transfer function) x (tensor order of the field), forward and
+    backward, several field shapes through ONE filter object: adjointness in the unweighted inner product over all tensor
+    components and samples, and both directions against an independent numpy reference."""
     import hcipy
     bad = []
     rng = np.random.default_rng(case['gseed'] + 17)
     q = np.array(case['q'])
-    tol = c01.tol_for(case['dtype'])
+    dt = case['dtype']
+    tol = c01.tol_for(dt)
     try:
         probe = hcipy.FastFourierTransform(in_grid, q)
     except Exception:  # noqa
         return bad
     ig = probe.output_grid
-    kinds = ['scalar']
-    if case['tensor'] == [2]:
-        kinds.append('matrix')
-    for kind in kinds:
-        shape = (ig.size,) if kind == 'scalar' else (2, 2, ig.size)
-        tf = hcipy.Field((rng.normal(size=shape) + 1j * rng.normal(size=shape)).astype(case['dtype']), ig)
+    Ns = tuple(int(n) for n in in_grid.shape)
+    Ms = tuple(int(m) for m in probe.internal_shape)
+    gnd = len(Ns)
+    ts0 = [int(t) for t in case['tensor']]
+    small = int(np.prod(Ms)) <= 6000
+
+    def rnd(shape):
+        return (rng.normal(size=shape) + 1j * rng.normal(size=shape)).astype(dt)
+
+    # (kind of transfer function, its tensor shape, tensor shapes of the fields sent through the one object)
+    plans = []
+    extra = [[int(rng.integers(1, 4))], [int(rng.integers(1, 4)), int(rng.integers(1, 4))]]
+    sc_shapes = [ts0] + ([extra[int(rng.integers(0, 2))]] if small and rng.random() < 0.5 else [])
+    plans.append(('scalar', (), sc_shapes))
+    # a matrix transfer function is defined for vector and matrix fields (field_dot); a field of tensor order 0 or >= 3 is not sent through it
+    ts_m = ts0 if len(ts0) in (1, 2) else []
+    if ts_m or small:
+        k0 = ts_m[0] if ts_m else int(rng.integers(1, 4))          # contracted index: the first tensor axis of the field
+        m = k0 if rng.random() < 0.6 else int(rng.integers(1, 4))
+        shapes = [ts_m] if ts_m else []
+        if small:
+            more = [[k0], [k0, int(rng.integers(1, 4))]]
+            shapes += [sh for sh in more if sh != ts_m][:2 if rng.random() < 0.5 else 1] if ts_m else more[int(rng.integers(0, 2)):][:2]
+        if not any(len(sh) == 2 for sh in shapes) and small:
+            shapes.append([k0, int(rng.integers(1, 4))])
+        plans.append(('matrix', (m, k0), shapes))
+    if (ts0 or small) and rng.random() < 0.5:
+        kv = ts0[-1] if ts0 else int(rng.integers(1, 4))          # broadcast index: the last tensor axis of the field
+        shapes = ([ts0] if ts0 else []) + ([[kv], [int(rng.integers(1, 4)), kv]] if small else [])
+        plans.append(('vector', (kv,), shapes[:3]))
+    for kind, tfs, shapes in plans:
+        tf_arr = rnd(tuple(tfs) + (ig.size,))
+        D = np.fft.ifftshift(tf_arr.astype('complex128').reshape(tuple(tfs) + Ms), axes=tuple(range(-gnd, 0)))
         try:
-            ff = hcipy.FourierFilter(in_grid, tf, q)
-            shp = np.asarray(x).shape
-            y = hcipy.Field((rng.normal(size=shp) + 1j * rng.normal(size=shp)).astype(case['dtype']), in_grid)
-            Ax = np.asarray(ff.forward(x))
-            Ay = np.asarray(ff.backward(y))
+            ff = hcipy.FourierFilter(in_grid, hcipy.Field(tf_arr.copy(), ig), q)
         except Exception as e:  # noqa
-            bad.append(('filter-raises', 'FourierFilter (%s transfer function) raised %s: %s' % (kind, type(e).__name__, e)))
+            bad.append(('filter-raises', 'FourierFilter (%s transfer function %s) raised %s: %s' % (kind, tfs, type(e).__name__, e)))
             continue
-        if Ax.shape != np.asarray(x).shape or Ay.shape != np.asarray(x).shape:
-            bad.append(('filter-adjoint', 'FourierFilter (%s transfer function) returned an array of shape %s / %s for an input of shape %s' % (
-                kind, Ax.shape, Ay.shape, np.asarray(x).shape)))
-            continue
-        lhs = inner(np.asarray(y), Ax, 1.0)
-        rhs = inner(Ay, np.asarray(x), 1.0)
-        scale = max(float(np.sum(np.abs(np.asarray(y)) * np.abs(Ax))), float(np.sum(np.abs(Ay) * np.abs(np.asarray(x)))), 1e-300)
-        obs['clauses'].append('filter-adjoint-' + kind)
-        if not abs(lhs - rhs) <= tol * scale:
-            bad.append(('filter-adjoint', 'FourierFilter (%s transfer function): <y,Ax> = %r but <A†y,x> = %r' % (kind, lhs, rhs)))
+        for si, ts in enumerate(shapes):
+            ts = list(ts)
+            what = '%s transfer function %s, field tensor shape %s%s' % (kind, list(tfs), ts, '' if si == 0 else ' (call %d on one object, after shapes %s)' % (
+                si + 1, shapes[:si]))
+            out_ts = ([tfs[0]] + ts[1:]) if kind == 'matrix' else ts
+            if si == 0 and ts == ts0:
+                xa = np.asarray(x)
+            else:
+                xa = rnd(tuple(ts) + (in_grid.size,))
+            ya = rnd(tuple(out_ts) + (in_grid.size,))
+            try:
+                if rng.random() < 0.5:
+                    Ax = np.asarray(ff.forward(hcipy.Field(xa.copy(), in_grid)))
+                    Ay = np.asarray(ff.backward(hcipy.Field(ya.copy(), in_grid)))
+                else:
+                    Ay = np.asarray(ff.backward(hcipy.Field(ya.copy(), in_grid)))
+                    Ax = np.asarray(ff.forward(hcipy.Field(xa.copy(), in_grid)))
+            except Exception as e:  # noqa
+                bad.append(('filter-raises', 'FourierFilter (%s) raised %s: %s' % (what, type(e).__name__, e)))
+                break
+            obs['clauses'].append('filter-adjoint-%s-tf-x-rank%d-field' % (kind, len(ts)))
+            if si > 0:
+                obs['clauses'].append('filter-shape-change-on-one-object')
+            if Ax.shape != ya.shape or Ay.shape != xa.shape:
+                bad.append(('filter-adjoint', 'FourierFilter (%s) returned arrays of shape %s / %s for inputs of shape %s / %s' % (what, Ax.shape, Ay.shape, xa.shape, ya.shape)))
+                break
+            lhs = inner(ya, Ax, 1.0)
+            rhs = inner(Ay, xa, 1.0)
+            scale = max(float(np.sum(np.abs(ya) * np.abs(Ax))), float(np.sum(np.abs(Ay) * np.abs(xa))), 1e-300)
+            if not abs(lhs - rhs) <= tol * scale:
+                bad.append(('filter-adjoint', 'FourierFilter (%s): <y,Ax> = %r but <A†y,x> = %r' % (what, lhs, rhs)))
+            for dname, got, src, adj in (('forward', Ax, xa, False), ('backward', Ay, ya, True)):
+                try:
+                    ref = _filter_reference(kind, D, src.astype('complex128').reshape(src.shape[:-1] + Ns), adj, Ns, Ms).reshape(got.shape)
+                except Exception as e:  # noqa
+                    raise MachineryError('filter reference (%s, %s): %s: %s' % (what, dname, type(e).__name__, e))
+                err = float(np.abs(got.astype(CLD) - ref).max())
+                if not err <= tol * max(float(np.abs(ref).max()), 1e-300):
+                    bad.append(('filter-' + dname, 'FourierFilter.%s (%s) differs from crop(ifftn(%s fftn(pad x))) by %.3g (scale %.3g)' % (
+                        dname, what, 'D·' if not adj else ('conj(D)·' if kind != 'matrix' else 'Dᴴ·'), err, float(np.abs(ref).max()))))
     return bad
 
 
@@ -292,13 +377,14 @@ def run(ctx):
     ctx.rule = ('the C01 generator (grid pairs, fields, configurations; see evidence/C01.json) with half of the FFT-family cases forced to a full '
                 '(fov = 1) pair and more single-pixel / edge-concentrated fields. For every applicable implementation: adjointness of '
                 'forward/backward in the weighted inner products of the two grids; on full FFT pairs the round trip and Parseval; on cropped '
-                'FFT grids output energy ≤ input energy; FourierFilter forward/backward adjointness (scalar and 2x2 transfer functions). '
+                'FFT grids output energy ≤ input energy; FourierFilter: every combination of transfer-function tensor order (scalar, vector, m×k matrix) and field '
+                'tensor order (scalar, vector, matrix), several field shapes through one object, forward/backward adjointness and both directions against a numpy reference. '
                 'Correspondence: modelled pipeline on impulse pairs (F_kj, B_jk, exact adjointness flag) and the full-grid decision. '
                 'Non-trivial = more than one input sample; distinct by the C01 signature plus the clauses evaluated.')
     ctx.assumptions += ['numpy/scipy fftn/ifftn compute the DFT / inverse DFT with 1/M normalisation', 'BLAS gemm computes matrix products',
                         'the weights reported by the grids are the weights the property refers to']
     thorough = ctx.tier == 'thorough'
-    n = ctx.scale(320, 5000)
+    n = ctx.scale(320, 4200)
     cases = [dict(c) for c in c01.DIRECTED]
     for c in c01.DIRECTED[:4]:
         c2 = dict(c)
